@@ -108,6 +108,7 @@ def main(argv=None):
   ap.add_argument("--no-minimise", action="store_true")
   ap.add_argument("--profile", help="override profile name (default: the property's profile)")
   ap.add_argument("--keep-going", action="store_true", help="report all violations (triage)")
+  ap.add_argument("--digests", help="write {run index: digest of event log + final state} here")
   args = ap.parse_args(argv)
 
   boot.boot()
@@ -154,6 +155,9 @@ def main(argv=None):
   results, planned = runmod.run_batch(profile, verif_seed, n_runs, tier, workers=args.workers,
                                       wall_budget=budget, start_index=args.start,
                                       time_limit=profile.run_time_limit)
+  if args.digests:
+    with open(args.digests, "w") as f:
+      json.dump({str(d["run_index"]): d.get("digest") for d in results}, f, sort_keys=True)
   harness = [d for d in results if d.get("harness_error")]
   bad = [d for d in results if d.get("violation")]
   exit_code = 0
